@@ -23,7 +23,7 @@ extern "C" void harness_c13_lambda()
     ve::Env env;
     env.val["x"] = verif_real("x");
     env.val["y"] = verif_real("y");
-    RCP<const Basic> e1 = build(r1, r1.root), e2 = build(r2, r2.root);
+    RCP<const Basic> e1 = build_or_skip(r1, r1.root), e2 = build_or_skip(r2, r2.root);
     // second output shares a subterm with the first (what cse is about)
     RCP<const Basic> shared = add(e1, e2), out3 = mul(e1, add(e1, integer(1)));
     bool cse = verif_choice("cse", 2);
